@@ -1,5 +1,10 @@
 CONSTANTS
   F32 = FALSE
+  CHECK_VALUES = TRUE
+  CHECK_SIGNALS = TRUE
+  CHECK_RANGES = FALSE
+  TSTRENGTH_DOC = FALSE
 SPECIFICATION Spec
+INVARIANT NotDone
 POSTCONDITION TraceAccepted
 CHECK_DEADLOCK FALSE
